@@ -1487,6 +1487,10 @@ fn gen_c12(out: &mut Out, rng: &mut Rng, thorough: bool) {
             let x = ops.remove(i);
             ops.push(x);
         }
+        // the same final options through a noisier history (rejected calls whose panic is caught, image() called twice)
+        if k % 3 == 2 {
+            ops = svgops::with_noise(rng, &ops);
+        }
         if k % 8 == 7 {
             out.job(move || svgt_line(&inp, o, &ops));
         } else {
@@ -1558,6 +1562,9 @@ fn gen_c18(out: &mut Out, rng: &mut Rng, thorough: bool) {
             for i in (1..ops.len()).rev() {
                 ops.swap(i, rng.below(i + 1));
             }
+        }
+        if rng.chance(1, 4) {
+            ops = svgops::with_noise(rng, &ops);
         }
         if rng.chance(1, 10) {
             out.job(move || svgt_line(&inp, o, &ops));
